@@ -51,6 +51,7 @@ type HarnessResult struct {
 	Wall         time.Duration
 	MaxQueryMs   int64
 	PathLimit    bool
+	TimeLimit    bool
 	Supports     int
 	SweepMs      int64
 }
@@ -113,6 +114,14 @@ func Explore(p *Program, cfg *HarnessCfg) *HarnessResult {
 				queue = queue[:len(queue)-1]
 				if paths >= cfg.MaxPaths {
 					res.PathLimit = true
+					queue = nil
+					mu.Unlock()
+					cond.Broadcast()
+					continue
+				}
+				if cfg.TimeBudgetS > 0 && time.Since(t0) > time.Duration(cfg.TimeBudgetS)*time.Second {
+					// out of time: stop scheduling paths; what was found so far is still reported
+					res.TimeLimit = true
 					queue = nil
 					mu.Unlock()
 					cond.Broadcast()
